@@ -37,6 +37,7 @@ MyEdit == { ESeq[i] : i \in { j \in 1..Len(ESeq) : j % NSlices = Slice } }
 Others == { MkTg(0, 2, <<MkTier("I", "n1", 0, 2, <<Iv(0, 1, "b")>>), MkTier("P", "n2", 0, 2, <<Pt(0, "a"), Pt(2, "b")>>)>>),
             MkTg(0, 3, <<MkTier("P", "n2", 0, 3, <<Pt(1, "a")>>), MkTier("I", "n3", 0, 3, <<Iv(1, 3, "a")>>)>>),
             MkTg(0, 2, <<MkTier("I", "n4", 0, 2, <<>>)>>),
+            MkTg(0, 2, <<MkTier("P", "n1", 0, 2, <<>>)>>),                 \* same name, other type, no entries
             MkTg(1, 3, <<MkTier("I", "n2", 1, 3, <<Iv(1, 2, "a")>>), MkTier("I", "n1", 1, 3, <<Iv(2, 3, "b")>>)>>) }
 
 NoCall == [op |-> "none"]
